@@ -456,3 +456,144 @@ Qed.
 Definition bad_plan_example : list action := [AllocRet; Copy 0; Call; ResultTemp; FreeArg 0].
 Lemma wrong_index_is_an_error : run (init_state []) bad_plan_example = None.
 Proof. reflexivity. Qed.
+
+(* ---------------------------------------------------------------------------------------------- *)
+(* 4. generic extern functions                                                                    *)
+(* ---------------------------------------------------------------------------------------------- *)
+Lemma gparam_compat : forall g, compat (ll_rep (ll_gparam g)) (c_rep (c_gparam g)).
+Proof.
+  intros [p | | [|]].
+  - left. apply param_rep_agree.
+  - right. reflexivity.
+  - right. reflexivity.
+  - right. reflexivity.
+Qed.
+
+Lemma gparams_compat : forall gs, Forall2 compat (map ll_rep (map ll_gparam gs)) (map c_rep (map c_gparam gs)).
+Proof.
+  induction gs as [| g gs IH]; [constructor |].
+  cbn [map]. constructor; [apply gparam_compat | exact IH].
+Qed.
+
+(* every arity; concrete parameters agree exactly, parameters that mention T agree up to untyped pointers *)
+Lemma generic_sig_lowering_compat : forall s,
+  ab_name (abi_of_ir (lower_gsig s)) = ab_name (abi_of_c (c_gsig s)) /\
+  compat (ab_ret (abi_of_ir (lower_gsig s))) (ab_ret (abi_of_c (c_gsig s))) /\
+  Forall2 compat (ab_params (abi_of_ir (lower_gsig s))) (ab_params (abi_of_c (c_gsig s))).
+Proof.
+  intros [n gs r]. unfold lower_gsig, c_gsig, abi_of_ir, abi_of_c. cbn [g_name g_params g_ret].
+  destruct r as [[r |] |]; cbn [gret_is_prim ret_is_prim].
+  - destruct (is_prim r) eqn:Hp; cbn [negb is_name is_ret is_params cs_name cs_ret cs_params ab_name ab_ret ab_params map].
+    + split; [reflexivity |]. split; [left; apply ty_rep_agree | apply gparams_compat].
+    + split; [reflexivity |]. split; [left; reflexivity |].
+      constructor; [left; cbn [ll_rep c_rep]; rewrite ty_rep_agree; reflexivity | apply gparams_compat].
+  - cbn [negb is_name is_ret is_params cs_name cs_ret cs_params ab_name ab_ret ab_params map].
+    split; [reflexivity |]. split; [left; reflexivity | apply gparams_compat].
+  - cbn [negb is_name is_ret is_params cs_name cs_ret cs_params ab_name ab_ret ab_params map].
+    split; [reflexivity |]. split; [left; reflexivity |].
+    constructor; [right; reflexivity | apply gparams_compat].
+Qed.
+
+(* a declaration without type parameters is the special case treated above *)
+Lemma gsig_of_concrete : forall s, lower_gsig (gsig_of s) = lower_sig s /\ c_gsig (gsig_of s) = c_sig s.
+Proof.
+  intros [n ps r]. unfold lower_gsig, c_gsig, gsig_of, lower_sig, c_sig.
+  cbn [g_name g_params g_ret s_name s_params s_ret gret_is_prim]. rewrite !map_map.
+  assert (E1 : map (fun x => ll_gparam (GConcrete x)) ps = map ll_param ps) by reflexivity.
+  assert (E2 : map (fun x => c_gparam (GConcrete x)) ps = map c_param ps) by reflexivity.
+  rewrite E1, E2.
+  destruct r as [r |]; cbn [ret_is_prim]; [destruct (is_prim r) |]; cbn [negb]; split; reflexivity.
+Qed.
+
+(* ownership: the cast of the generic path does not change which slot is released *)
+Lemma step_erase : forall st a, step st a = step st (erase_cast a).
+Proof. intros st a; destruct a; reflexivity. Qed.
+
+Lemma run_erase : forall p st, run st p = run st (map erase_cast p).
+Proof.
+  induction p as [| a p IH]; intros st; [reflexivity |].
+  cbn [run map]. rewrite <- step_erase. destruct (step st a); [apply IH | reflexivity].
+Qed.
+
+Lemma free_actions_g_erase : forall ps gs rp i, map erase_cast (free_actions_g rp i ps gs) = free_actions rp i ps.
+Proof.
+  induction ps as [| p ps IH]; intros gs rp i; [reflexivity |].
+  cbn [free_actions_g free_actions]. rewrite map_app, IH. f_equal.
+  destruct (p_ref p); [reflexivity |]. destruct (is_prim (p_ty p)); [reflexivity |].
+  destruct (is_list (p_ty p) && hd false gs); reflexivity.
+Qed.
+
+Lemma arg_actions_erase : forall ps ks i, map erase_cast (arg_actions i ps ks) = arg_actions i ps ks.
+Proof.
+  induction ps as [| p ps IH]; intros ks i; [reflexivity |].
+  destruct ks as [| k ks]; [reflexivity |]. cbn [arg_actions map]. rewrite IH. f_equal.
+  unfold arg_action. destruct (p_ref p); [reflexivity |]. destruct (is_prim (p_ty p)); [reflexivity |]. destruct k; reflexivity.
+Qed.
+
+Lemma call_plan_g_erase : forall s gs ks, map erase_cast (call_plan_g s gs ks) = call_plan s ks.
+Proof.
+  intros s gs ks. unfold call_plan_g, call_plan. rewrite !map_app, free_actions_g_erase, arg_actions_erase.
+  destruct (ret_is_prim (s_ret s)); reflexivity.
+Qed.
+
+Lemma free_actions_g_casts : forall ps gs rp b k,
+  In (FreeArgCast k) (free_actions_g rp b ps gs) ->
+  exists j p, nth_error ps j = Some p /\ p_ref p = false /\ is_prim (p_ty p) = false /\ is_list (p_ty p) = true /\
+              nth_error gs j = Some true /\ k = (b + j) + (if rp then 0 else 1).
+Proof.
+  induction ps as [| p ps IH]; intros gs rp b k H; [destruct H |].
+  cbn [free_actions_g] in H. apply in_app_or in H. destruct H as [H | H].
+  - destruct (p_ref p) eqn:Hr; [destruct H |]. destruct (is_prim (p_ty p)) eqn:Hp; [destruct H |].
+    destruct (is_list (p_ty p)) eqn:Hl; cbn [andb] in H.
+    + destruct gs as [| g gs]; cbn [hd] in H.
+      * destruct H as [H | []]; discriminate H.
+      * destruct g; destruct H as [H | []]; [| discriminate H].
+        injection H as H. exists 0, p. cbn [nth_error]. repeat split; try assumption. destruct rp; lia.
+    + destruct H as [H | []]; discriminate H.
+  - apply IH in H. destruct H as [j [q [H1 [H2 [H3 [H4 [H5 H6]]]]]]].
+    exists (S j), q. cbn [nth_error]. repeat split; try assumption.
+    + destruct gs; [destruct j; discriminate H5 | exact H5].
+    + lia.
+Qed.
+
+Lemma generic_extern_call_ownership : forall s gs ks,
+  length ks = length (s_params s) ->
+  exists st,
+    run (init_state (temp_indices 0 (s_params s) ks)) (call_plan_g s gs ks) = Some st /\
+    (* the same final ownership state as without the casts: everything made for the call released exactly
+       once, nothing else, result owned *)
+    run (init_state (temp_indices 0 (s_params s) ks)) (call_plan s ks) = Some st /\
+    st_slots st = [] /\ NoDup (st_freed st) /\ st_temps st = [] /\
+    st_result_owned st = negb (ret_is_prim (s_ret s)) /\
+    (* the slot that is cast back and released is the slot of exactly that generic by-value list argument,
+       also behind an out-pointer *)
+    (forall k, In (FreeArgCast k) (call_plan_g s gs ks) ->
+       exists i p, nth_error (s_params s) i = Some p /\ p_ref p = false /\ is_list (p_ty p) = true /\
+                   nth_error gs i = Some true /\
+                   k = i + (if ret_is_prim (s_ret s) then 0 else 1) /\
+                   nth_error (st_args st) k = Some (VSlot i)).
+Proof.
+  intros s gs ks Hlen.
+  destruct (extern_call_ownership s ks Hlen) as [st [Hrun [Hs [Hnd [_ [Ht [Hr [Hargs _]]]]]]]].
+  exists st. split; [rewrite run_erase, call_plan_g_erase; exact Hrun |].
+  split; [exact Hrun |]. split; [exact Hs |]. split; [exact Hnd |]. split; [exact Ht |]. split; [exact Hr |].
+  intros k H. unfold call_plan_g in H.
+  apply in_app_or in H. destruct H as [H | H].
+  { destruct (ret_is_prim (s_ret s)); [destruct H |]. destruct H as [H | []]; discriminate H. }
+  apply in_app_or in H. destruct H as [H | H].
+  { exfalso. clear - H. revert H. generalize 0 ks. induction (s_params s) as [| p ps IH]; intros b ks0 H; [destruct H |].
+    destruct ks0 as [| k0 ks0]; [destruct H |]. cbn [arg_actions] in H. destruct H as [H | H]; [| eapply IH; exact H].
+    unfold arg_action in H. destruct (p_ref p); [discriminate H |]. destruct (is_prim (p_ty p)); [discriminate H |].
+    destruct k0; discriminate H. }
+  cbn [app] in H. destruct H as [H | H]; [discriminate H |].
+  apply in_app_or in H. destruct H as [H | H].
+  { destruct (ret_is_prim (s_ret s)); [destruct H |]. destruct H as [H | []]; discriminate H. }
+  apply free_actions_g_casts in H. destruct H as [j [p [H1 [H2 [H3 [H4 [H5 H6]]]]]]]. cbn [plus] in H6.
+  exists j, p. repeat split; try assumption.
+  rewrite H6. rewrite (Hargs j p H1). rewrite H2, H3. reflexivity.
+Qed.
+
+(* the seeded shape: the cast branch uses the un-shifted index although an out-pointer occupies position 0 *)
+Lemma generic_wrong_index_is_an_error :
+  run (init_state []) [AllocRet; Copy 0; Call; ResultTemp; FreeArgCast 0] = None.
+Proof. reflexivity. Qed.
